@@ -11,6 +11,13 @@
 //   mode 6  guard stream: type/latency/port-count combinations MemoryGroup::verify rejects, three write ports, ROMs
 //   mode 7  observation stream: synchronous reset and writes already issued in cycle 0, i.e. while the reset is still asserted at the
 //           first clock edge (outside the statement: the driver only counts how often post-processing drops such a write)
+//   mode 8  reset-logic family: memory reset logic (addResetLogic / initZero network, or power-on image -> reset ROM) x synchronous /
+//           asynchronous reset x depth 1, 2, powers of two, non powers of two x reset held 0..3 cycles longer than the minimum x
+//           writes during reset (dropped by the reset logic) or a forced write in the first cycle after reset x latency 1..3;
+//           array model: contents = reset image until written
+//   mode 9  read-register family: the L read-latency registers of a read port with / without reset values and with / without a read
+//           enable (ENIF), latency 1..3, every MemType, synchronous / asynchronous / no reset, enable held low for 1..4 cycles after
+//           the reset and toggling later; model: enabled shift register behind the array read, holding its reset values until loaded
 //
 // One block per case:
 //   case <id> depth= width= aw= L= type= init= dev= mode= idle= memreset= noreset= initnet= explicit= resetcycles= ports=<n>
@@ -19,7 +26,7 @@
 //   port <i> W cond=<0|1> rmw=<j|-> share=<j|->   write port; data = pin (xor async data of read port j)
 //   mem <w0> <w1> ...                 power-on contents, one 0/1/x string per word
 //   pre <ok|e>   post <ok|e reason>   whether simulation before / postprocess+simulation after worked (e = gatery threw; reason = hint text)
-//   c <t> ; <port inputs in declaration order: R: en addr | W: en wrEn addr data> ; <async read data> ; <pins pre> ; <pins post>
+//   c <t> ; <port inputs in declaration order: R: en addr | W: en wrEn addr data> ; <async read data> ; <pins pre> ; <pins post> [; <read enable pins, one per read port, - if none>]
 //   end
 // Port inputs and async read data are sampled on the netlist as built (before post-processing) right before the clock edge;
 // "-" = input not connected. Pins are the pinOut()s behind L registers.
@@ -44,6 +51,8 @@ struct PortCfg {
 	bool cond = false;   // write under IF (en)
 	int rmw = -1;        // write data = pin ^ async data of that (earlier) read port
 	int share = -1;      // address pin shared with that earlier port
+	bool rdEn = false;                 // read port: the L registers sit under ENIF(own enable pin)
+	std::vector<std::string> rstVals;  // read port: reset value of register k (empty = registers without reset value)
 	std::string outXor;  // read port: constant xor-ed onto the read data in front of the L registers (they must be retimed across it)
 };
 
@@ -56,6 +65,12 @@ struct CaseCfg {
 	bool memReset = false;
 	bool noReset = false;  // clock without reset (registers rely on power-on initialisation): cycle 0 is a normal cycle
 	bool initNet = false; // initZero(): initialization network attached
+	bool asyncReset = false;
+	size_t enLow = 0;        // mode 9: read enables stay low for this many cycles after the reset cycle(s)
+	size_t extraReset = 0;   // reset held this many cycles longer than Clock::getMinResetCycles() asks for
+	bool wrInReset = false;  // write enables are also driven while the reset is asserted
+	size_t rcPred = 0;       // number of reset cycles the reset logic is expected to ask for (+ extraReset)
+	uint64_t resetXor = 0;   // init == 4: addResetLogic(word a := a ^ resetXor), power-on image the same
 	size_t idle = 0;
 	std::vector<PortCfg> ports;
 	std::vector<std::string> initWords;
@@ -74,7 +89,7 @@ static std::string bitsOf(uint64_t v, size_t w) { std::string s; for (size_t i =
 static size_t log2c(size_t v) { size_t b = 0; while ((size_t(1) << b) < v) b++; return b; }
 
 struct Built {
-	std::vector<hlim::Node_Pin*> inPins; std::vector<size_t> inWidths; std::vector<int> inKind; std::vector<int> inPort; // kind 0 addr 1 en 2 data
+	std::vector<hlim::Node_Pin*> inPins; std::vector<size_t> inWidths; std::vector<int> inKind; std::vector<int> inPort; // kind 0 addr 1 en 2 data 3 read enable
 	std::vector<hlim::Node_Pin*> outPins;
 	std::vector<hlim::Node_MemPort*> memPorts;
 	std::optional<Clock> clock;
@@ -84,17 +99,17 @@ struct Built {
 static hlim::Node_Pin *pinOf(UInt &v) { return dynamic_cast<hlim::Node_Pin*>(v.node()->getNonSignalDriver(0).node); }
 static hlim::Node_Pin *pinOf(Bit &v) { return dynamic_cast<hlim::Node_Pin*>(v.node()->getNonSignalDriver(0).node); }
 
-static void build(DesignScope &design, CaseCfg &c, Built &b) {
+static void build(DesignScope &design, CaseCfg &c, Built &b, bool withResetNet = true) {
 	b.clock.emplace(ClockConfig{.absoluteFrequency = 100'000'000, .name = "clk",
-		.resetType = c.noReset ? ClockConfig::ResetType::NONE : ClockConfig::ResetType::SYNCHRONOUS,
-		.memoryResetType = c.memReset ? ClockConfig::ResetType::SYNCHRONOUS : ClockConfig::ResetType::NONE, .initializeRegs = true, .initializeMemory = true});
+		.resetType = c.noReset ? ClockConfig::ResetType::NONE : c.asyncReset ? ClockConfig::ResetType::ASYNCHRONOUS : ClockConfig::ResetType::SYNCHRONOUS,
+		.memoryResetType = !c.memReset ? ClockConfig::ResetType::NONE : c.asyncReset ? ClockConfig::ResetType::ASYNCHRONOUS : ClockConfig::ResetType::SYNCHRONOUS, .initializeRegs = true, .initializeMemory = true});
 	ClockScope clkScope(*b.clock);
 	Memory<UInt> mem(c.depth, BitWidth(c.width));
 	if (c.explicitLatency) mem.setType(typeOf(c.type), c.L); else { mem.setType(typeOf(c.type)); c.L = mem.readLatencyHint(); }
 	b.L = c.L;
 	if (c.init == 1) { if (c.initNet) mem.initZero(); else mem.setPowerOnStateZero(); }
 	else if (c.init >= 2) {
-		size_t nw = c.init == 2 ? c.depth : std::max<size_t>(1, c.depth / 2);
+		size_t nw = c.init != 3 ? c.depth : std::max<size_t>(1, c.depth / 2);
 		sim::DefaultBitVectorState st; st.resize(nw * c.width);
 		for (size_t i = 0; i < nw; i++) for (size_t k = 0; k < c.width; k++) {
 			char ch = c.initWords[i][c.width - 1 - k];
@@ -103,19 +118,40 @@ static void build(DesignScope &design, CaseCfg &c, Built &b) {
 		mem.fillPowerOnState(std::move(st));
 	}
 	size_t aw = log2c(c.depth);
+	if (c.init == 4 && withResetNet) {
+		std::string lit = std::to_string(c.width) + "b" + bitsOf(c.resetXor, c.width);
+		size_t width = c.width;
+		mem.addResetLogic([=](UInt a) -> UInt {
+			UInt k = lit.c_str();
+			UInt av = aw < width ? UInt(zext(a, BitWidth(width))) : UInt(a.lower(BitWidth(width)));
+			return UInt(av ^ k);
+		});
+	}
+	size_t pw = std::max<size_t>(aw, 1);   // a depth-1 memory has a zero-width address: the frontend truncates the 1-bit pin
 	std::vector<UInt> addrOf(c.ports.size()), rdData(c.ports.size());
 	for (size_t i = 0; i < c.ports.size(); i++) {
 		const PortCfg &p = c.ports[i];
 		if (p.share >= 0) addrOf[i] = addrOf[p.share];
 		else {
-			addrOf[i] = pinIn(BitWidth(aw)).setName("a" + std::to_string(i));
-			b.inPins.push_back(pinOf(addrOf[i])); b.inWidths.push_back(aw); b.inKind.push_back(0); b.inPort.push_back((int) i);
+			addrOf[i] = pinIn(BitWidth(pw)).setName("a" + std::to_string(i));
+			b.inPins.push_back(pinOf(addrOf[i])); b.inWidths.push_back(pw); b.inKind.push_back(0); b.inPort.push_back((int) i);
 		}
 		if (!p.isWrite) {
 			rdData[i] = mem[addrOf[i]];
 			UInt o = rdData[i];
 			if (!p.outXor.empty()) { std::string lit = std::to_string(c.width) + "b" + p.outXor; UInt k = lit.c_str(); o = o ^ k; }
-			for (size_t k = 0; k < c.L; k++) o = reg(o, {.allowRetimingBackward = true});
+			Bit ren;
+			if (p.rdEn) {
+				ren = pinIn().setName("r" + std::to_string(i));
+				b.inPins.push_back(pinOf(ren)); b.inWidths.push_back(1); b.inKind.push_back(3); b.inPort.push_back((int) i);
+			}
+			for (size_t k = 0; k < c.L; k++) {
+				auto stage = [&]() {
+					if (p.rstVals.empty()) o = reg(o, {.allowRetimingBackward = true});
+					else { std::string lit = std::to_string(c.width) + "b" + p.rstVals[k]; UInt rv = lit.c_str(); o = reg(o, rv, {.allowRetimingBackward = true}); }
+				};
+				if (p.rdEn) { ENIF (ren) stage(); } else stage();
+			}
 			b.outPins.push_back(pinOut(o).setName("q" + std::to_string(i)).node());
 		} else {
 			UInt d = pinIn(BitWidth(c.width)).setName("d" + std::to_string(i));
@@ -141,21 +177,31 @@ using Stim = std::vector<std::vector<std::string>>; // [cycle][pin]
 static Stim genStim(vh::Rng &rng, const CaseCfg &c, const Built &b, size_t ncycles, int mode) {
 	Stim st;
 	size_t aw = log2c(c.depth);
+	size_t pw = std::max<size_t>(aw, 1);
 	std::vector<uint64_t> hot; for (int i = 0; i < 2; i++) hot.push_back(rng.below(c.depth));
+	if (mode == 8) hot[0] = 0;
 	unsigned enBias = 1 + (unsigned) rng.below(4); // enables are on with probability enBias/4 .. mostly on
 	for (size_t t = 0; t < ncycles; t++) {
 		std::vector<std::string> row;
 		bool burst = rng.chance(1, 3); // everybody on the same address
 		uint64_t burstAddr = hot[rng.below(hot.size())];
+		bool firstAfterReset = mode == 8 && !c.wrInReset && t == c.idle;   // forced write right after the reset is released
+		if (firstAfterReset) { burst = rng.chance(1, 2); burstAddr = 0; }
 		for (size_t i = 0; i < b.inPins.size(); i++) {
 			if (b.inKind[i] == 0) {
 				uint64_t a = burst ? burstAddr : (rng.chance(1, 2) ? hot[rng.below(hot.size())] : rng.below(c.depth));
 				if (mode == 4 && (size_t(1) << aw) > c.depth && rng.chance(1, 4)) a = c.depth + rng.below((size_t(1) << aw) - c.depth);
-				std::string s = bitsOf(a, aw);
+				std::string s = bitsOf(a, pw);
 				if (mode == 3 && rng.chance(1, 12)) s[rng.below(s.size())] = 'x';
 				row.push_back(s);
+			} else if (b.inKind[i] == 3) {
+				row.push_back(t < c.idle + c.enLow ? "0" : (rng.chance(2, 3) ? "1" : "0"));
 			} else if (b.inKind[i] == 1) {
 				std::string s = (t < c.idle) ? "0" : (rng.below(4) < enBias ? "1" : "0");
+				if (firstAfterReset) s = "1";
+				// the reset is released at the very instant of clock edge number rcPred: whether a write issued in cycle rcPred-1 is still
+				// taken over by the reset logic is a race of simultaneous events; no write is issued in that one cycle
+				if (c.wrInReset && t + 1 == c.rcPred) s = "0";
 				if (mode == 3 && rng.chance(1, 16)) s = "x";
 				row.push_back(s);
 			} else
@@ -207,18 +253,24 @@ static CaseCfg genCase(vh::Rng &rng, int mode) {
 	static const size_t depthsP2[] = {2, 4, 8, 16, 32}, depthsNP[] = {3, 5, 6, 7, 12, 17, 24};
 	bool np = mode == 4 ? true : rng.chance(2, 5);
 	c.depth = np ? depthsNP[rng.below(7)] : depthsP2[rng.below(5)];
+	if (mode == 8) { if (rng.chance(1, 5)) c.depth = 1 + rng.below(2); else if (np) c.depth = depthsNP[rng.below(5)]; else c.depth = depthsP2[rng.below(4)]; }
 	if ((mode == 1 || mode == 2) && rng.chance(1, 3)) c.depth = rng.chance(1, 2) ? 64 : 100;   // deep enough for block rams
 	static const size_t widths[] = {1, 2, 3, 4, 5, 8, 12, 16, 33};
 	c.width = widths[rng.below(9)];
 	c.dev = mode == 1 ? (rng.chance(2, 3) ? 1 : 4) : mode == 2 ? (rng.chance(2, 3) ? 2 : 3) : 0;
 	c.type = (int) rng.below(4);
 	c.L = rng.below(4);
-	c.memReset = mode == 5;
+	if (mode == 9) { c.L = 1 + rng.below(3); c.asyncReset = rng.chance(1, 3); c.enLow = 1 + rng.below(4); }
+	c.memReset = mode == 5 || mode == 8;
+	if (mode == 8) { c.L = 1 + rng.below(3); c.asyncReset = rng.chance(1, 2); c.extraReset = rng.chance(1, 2) ? 0 : 1 + rng.below(3); c.wrInReset = rng.chance(1, 3); }
 	// with a synchronous reset the first rising clock edge happens under reset (Clock::getMinResetCycles() >= 1): cycle 0 is a
 	// reset cycle, no write is issued in it (so every write port has an enable); without reset the stimulus starts right away
-	c.noReset = !c.memReset && mode != 7 && rng.chance(1, 2);
+	c.noReset = !c.memReset && mode != 7 && !c.asyncReset && rng.chance(1, mode == 9 ? 4 : 2);
 	c.idle = (c.noReset || mode == 7) ? 0 : 1;
 	size_t nR = 1 + rng.below(3), nW = 1 + rng.below(2);
+	// writes during reset: only the write port the reset logic takes over (findSuitableResetWritePort = the first one) drops them;
+	// with a second write port the contents during reset are whatever that port writes - no array model to compare with
+	if (c.wrInReset) nW = 1;
 	if (mode == 6) {
 		switch (rng.below(4)) {
 			case 0: c.type = 2; c.L = 0; break;                           // MEDIUM without a read latency register
@@ -235,6 +287,7 @@ static CaseCfg genCase(vh::Rng &rng, int mode) {
 		c.explicitLatency = rng.chance(1, 3); if (c.explicitLatency && c.L == 0) c.L = 1;
 		if (rng.chance(1, 2)) { nR = 1; nW = 1; }          // the shape vendor block rams / lutrams are mapped for
 	}
+	bool useRdEn = mode == 9 && rng.chance(3, 5);   // cases without any read enable keep read-modify-write data (hazard logic + reset values)
 	// declaration order
 	std::vector<bool> kinds; for (size_t i = 0; i < nR; i++) kinds.push_back(false); for (size_t i = 0; i < nW; i++) kinds.push_back(true);
 	for (size_t i = kinds.size(); i > 1; i--) { size_t j = rng.below(i); bool t = kinds[i - 1]; kinds[i - 1] = kinds[j]; kinds[j] = t; }
@@ -243,20 +296,37 @@ static CaseCfg genCase(vh::Rng &rng, int mode) {
 		if (i > 0 && rng.chance(1, 3)) p.share = (int) rng.below(i);
 		if (p.share >= 0 && c.ports[p.share].share >= 0) p.share = c.ports[p.share].share;
 		if (!p.isWrite && c.L > 0 && rng.chance(1, 4)) p.outXor = randBits(rng, c.width);
+		if (!p.isWrite && mode == 9) {
+			p.rdEn = useRdEn && rng.chance(3, 4);
+			if (rng.chance(2, 3)) for (size_t k = 0; k < c.L; k++) p.rstVals.push_back(randBits(rng, c.width));
+		}
 		if (p.isWrite) {
 			p.cond = (c.noReset || mode == 7) ? rng.chance(3, 4) : true;
 			std::vector<int> earlierReads; for (size_t j = 0; j < i; j++) if (!c.ports[j].isWrite) earlierReads.push_back((int) j);
-			if (!earlierReads.empty() && rng.chance(1, 2)) p.rmw = earlierReads[rng.below(earlierReads.size())];
+			bool anyRdEn = false; for (auto &q : c.ports) anyRdEn |= q.rdEn;
+			if (!earlierReads.empty() && !c.wrInReset && !anyRdEn && rng.chance(1, 2)) p.rmw = earlierReads[rng.below(earlierReads.size())];
 		}
 		c.ports.push_back(p);
 	}
+	// registers with an enable cannot be retimed across logic that also feeds a write port without that enable (explicit design
+	// check "A retiming error occured", RegisterRetiming.cpp:1478-1494): no read-modify-write data when a read register has an enable
+	{ bool anyRdEn = false; for (auto &q : c.ports) anyRdEn |= q.rdEn; if (anyRdEn) for (auto &q : c.ports) q.rmw = -1; }
 	c.init = (nW == 0) ? 2 : (int) rng.below(4);
 	if (mode == 2 && nW > 0 && rng.chance(1, 2)) c.init = 0;   // the Xilinx primitives are only mapped for memories without power-on contents
 	if (c.memReset) { c.init = 1 + (int) rng.below(2); c.initNet = c.init == 1 && rng.chance(1, 2); c.idle = c.depth + 4; }
+	if (mode == 8) {
+		switch (rng.below(3)) { case 0: c.init = 1; c.initNet = true; break; case 1: c.init = 2; c.initNet = false; break; default: c.init = 4; c.initNet = true; break; }
+		c.resetXor = rng.next() & ((c.width >= 64 ? ~0ull : (1ull << c.width) - 1));
+		// MemoryDetector.cpp:778-781 / 827-830: one reset cycle per word, one more for the ROM's read register, one more for an asynchronous reset
+		size_t resetCycles = c.depth + (c.initNet ? 0 : 1) + (c.asyncReset ? 1 : 0) + c.extraReset;
+		c.rcPred = resetCycles;
+		c.idle = c.wrInReset ? 0 : resetCycles;
+	}
 	for (size_t i = 0; i < c.depth; i++) {
 		if (c.init == 0) c.initWords.push_back(std::string(c.width, 'x'));
 		else if (c.init == 1) c.initWords.push_back(std::string(c.width, '0'));
 		else if (c.init == 2) c.initWords.push_back(randBits(rng, c.width));
+		else if (c.init == 4) c.initWords.push_back(bitsOf((i ^ c.resetXor) & (c.width >= 64 ? ~0ull : (1ull << c.width) - 1), c.width));
 		else c.initWords.push_back(i < std::max<size_t>(1, c.depth / 2) ? randBits(rng, c.width) : std::string(c.width, 'x'));
 	}
 	return c;
@@ -268,7 +338,19 @@ static void runCase(const std::string &id, vh::Rng &rng, size_t ncycles, int mod
 	std::string preRes = "ok", postRes = "ok";
 	size_t resetCycles = 0;
 	std::string netInfo = "-";
+	std::vector<std::string> renField;
 	Stim st;
+	if (c.init == 4) {
+		// a memory with an addResetLogic network cannot be simulated as built (the network from INITIALIZATION_ADDR back to
+		// INITIALIZATION_DATA is a combinational cycle through the memory node until buildResetLogic cuts it): the netlist
+		// "before post-processing" is the twin design without the network (same power-on image)
+		try {
+			DesignScope twin; Built tb;
+			build(twin, c, tb, false);
+			st = genStim(rng, c, tb, ncycles, mode);
+			simulate(twin, tb, st, true, internals, pinsPre);
+		} catch (const std::exception &e) { preRes = "e twin"; if (getenv("VH_DEBUG")) std::cerr << id << " twin: " << e.what() << "\n"; }
+	}
 	{
 		DesignScope design;
 		if (c.dev == 1) { auto d = std::make_unique<scl::IntelDevice>(); d->setupArria10(); design.setTargetTechnology(std::move(d)); }
@@ -278,11 +360,24 @@ static void runCase(const std::string &id, vh::Rng &rng, size_t ncycles, int mod
 		Built b;
 		try {
 			build(design, c, b);
-			st = genStim(rng, c, b, ncycles, mode);
-			simulate(design, b, st, true, internals, pinsPre);
+			if (c.init != 4) {
+				st = genStim(rng, c, b, ncycles, mode);
+				simulate(design, b, st, true, internals, pinsPre);
+			}
+			if (mode == 9)   // the read enable pins, one column per read port
+				for (auto &row : st) {
+					std::string f;
+					for (size_t i = 0; i < c.ports.size(); i++) if (!c.ports[i].isWrite) {
+						std::string v = "-";
+						for (size_t k = 0; k < b.inPins.size(); k++) if (b.inKind[k] == 3 && b.inPort[k] == (int) i) v = row[k];
+						f += " " + v;
+					}
+					renField.push_back(f);
+				}
 		} catch (const std::exception &e) {
 			std::string w = e.what(), hint; size_t p = w.find("Hint:");
 			if (p != std::string::npos) { hint = w.substr(p + 5); hint = hint.substr(0, hint.find('\n')); } else hint = w.substr(0, w.find('\n'));
+				if (size_t q = hint.find(" Location:"); q != std::string::npos) hint = hint.substr(0, q);
 			std::string slug; for (char ch : hint) { if (isalnum((unsigned char) ch)) slug.push_back(ch); else if (!slug.empty() && slug.back() != '_') slug.push_back('_'); }
 			preRes = "e " + slug.substr(0, 60);
 			if (getenv("VH_DEBUG")) std::cerr << id << " pre: " << e.what() << "\n";
@@ -290,6 +385,7 @@ static void runCase(const std::string &id, vh::Rng &rng, size_t ncycles, int mod
 		if (preRes == "ok") {
 			try {
 				design.postprocess();
+				if (c.extraReset) b.clock->getClk()->setMinResetCycles(b.clock->getClk()->getMinResetCycles() + c.extraReset);
 				resetCycles = b.clock->getClk()->getMinResetCycles();
 				{	// what the memory became: remaining generic memory ports and instantiated vendor primitives
 					size_t nPorts = 0, nMems = 0; std::map<std::string, size_t> ext;
@@ -308,27 +404,31 @@ static void runCase(const std::string &id, vh::Rng &rng, size_t ncycles, int mod
 				// canonical reason: the hint text of the design check, words joined by '_' (nothing address dependent)
 				std::string w = e.what(), hint; size_t p = w.find("Hint:");
 				if (p != std::string::npos) { hint = w.substr(p + 5); hint = hint.substr(0, hint.find('\n')); } else hint = w.substr(0, w.find('\n'));
+				if (size_t q = hint.find(" Location:"); q != std::string::npos) hint = hint.substr(0, q);
 				std::string slug; for (char ch : hint) { if (isalnum((unsigned char) ch)) slug.push_back(ch); else if (!slug.empty() && slug.back() != '_') slug.push_back('_'); }
 				postRes = "e " + slug.substr(0, 100); pinsPost.clear();
 				if (getenv("VH_DEBUG")) std::cerr << id << " post: " << e.what() << "\n";
 			}
 		}
 	}
-	std::cout << "case " << id << " depth=" << c.depth << " width=" << c.width << " aw=" << log2c(c.depth) << " L=" << c.L << " type=" << typeName(c.type)
-		<< " init=" << c.init << " dev=" << c.dev << " mode=" << mode << " idle=" << c.idle << " memreset=" << (c.memReset ? 1 : 0) << " noreset=" << (c.noReset ? 1 : 0) << " initnet=" << (c.initNet ? 1 : 0)
+	std::cout << std::dec << "case " << id << " depth=" << c.depth << " width=" << c.width << " aw=" << log2c(c.depth) << " L=" << c.L << " type=" << typeName(c.type)
+		<< " init=" << c.init << " dev=" << c.dev << " mode=" << mode << " idle=" << c.idle << " memreset=" << (c.memReset ? 1 : 0) << " noreset=" << (c.noReset ? 1 : 0) << " initnet=" << (c.initNet ? 1 : 0) << " async=" << (c.asyncReset ? 1 : 0) << " extra=" << c.extraReset << " wrinreset=" << (c.wrInReset ? 1 : 0) << " rcpred=" << c.rcPred << " enlow=" << c.enLow
 		<< " explicit=" << (c.explicitLatency ? 1 : 0) << " resetcycles=" << resetCycles << " ports=" << c.ports.size() << "\n";
 	for (size_t i = 0; i < c.ports.size(); i++) {
 		const PortCfg &p = c.ports[i];
 		std::cout << "port " << i << (p.isWrite ? " W" : " R");
 		if (p.isWrite) std::cout << " cond=" << (p.cond ? 1 : 0) << " rmw=" << (p.rmw >= 0 ? std::to_string(p.rmw) : "-");
 		std::cout << " share=" << (p.share >= 0 ? std::to_string(p.share) : "-");
-		if (!p.isWrite) std::cout << " xor=" << (p.outXor.empty() ? "-" : p.outXor);
+		if (!p.isWrite) {
+			std::cout << " xor=" << (p.outXor.empty() ? "-" : p.outXor) << " en=" << (p.rdEn ? 1 : 0) << " rst=";
+			if (p.rstVals.empty()) std::cout << "-"; for (size_t k = 0; k < p.rstVals.size(); k++) std::cout << (k ? "," : "") << p.rstVals[k];
+		}
 		std::cout << "\n";
 	}
 	std::cout << "mem"; for (auto &w : c.initWords) std::cout << ' ' << w; std::cout << "\n";
 	std::cout << "pre " << preRes << "\npost " << postRes << "\nnet " << netInfo << "\n";
 	for (size_t t = 0; t < internals.size(); t++) {
-		std::cout << "c " << t << " ;" << internals[t] << " ;" << pinsPre[t] << " ;" << (t < pinsPost.size() ? pinsPost[t] : std::string(" -")) << "\n";
+		std::cout << "c " << t << " ;" << internals[t] << " ;" << pinsPre[t] << " ;" << (t < pinsPost.size() ? pinsPost[t] : std::string(" -")) << (t < renField.size() ? " ;" + renField[t] : std::string()) << "\n";
 	}
 	std::cout << "end\n";
 }
